@@ -45,6 +45,7 @@ func verifyFuncs(w *World, names []string, findings []*Finding, tmo time.Duratio
 		fv.prop = devProp
 		t0 := time.Now()
 		err := fv.verify()
+		fv.finalizeQueries()
 		out = append(out, &funcResult{fi: fi, fv: fv, err: err, secs: time.Since(t0).Seconds()})
 	}
 	// solve
